@@ -14,7 +14,8 @@ import Thanos.Model.CompactSync
           steps  = <proc>:<k>;…             proc ∈ up ship rep del mark nocomp ; k = crash budget | x
         answer: <status>[<mutating calls>] … => <listing>       (grammar in harness/cmd/block/c28.go)
 
-  C31   dd.filter <metas>        metas = <id>:<group>:<level>:<src>,<src>,…;…   (sources `-` = none)
+  C31   dd.filter <metas>        metas = <ulid>:<group>:<level>:<src>,<src>,…;…   (ulid = <time> | <time>e<entropy>; sources `-` = none)
+        ids in the answer = time * 1000 + entropy
         answer: kept=<ids ascending> dups=<ids ascending>
 
   C32   c32.ret <nowMs> <rets> <blocks>       rets = <res>:<durMs>:<shift>,…   blocks = <id>:<res>:<maxTimeMs>:<shift>;…
@@ -126,11 +127,18 @@ def sortNats (xs : List Nat) : List Nat := xs.foldr insertNat []
 def parseMeta (t : String) : Option DedupFilter.Meta :=
   match splitChar ':' t with
   | [i, g, lv, srcs] => do
-    let i ← parseNat? i
+    -- ULID token: <time> or <time>e<entropy> ; protocol number = time * 1000 + entropy
+    let (t, e) ← match splitChar 'e' i with
+      | [t] => (parseNat? t).map fun t => (t, 0)
+      | [t, e] => do
+        let t ← parseNat? t
+        let e ← parseNat? e
+        pure (t, e)
+      | _ => none
     let g ← parseNat? g
     let lv ← parseNat? lv
     let ss ← parseNats? ',' srcs
-    pure ⟨i, g, lv, ss⟩
+    pure ⟨t * 1000 + e, t, e, g, lv, ss⟩
   | _ => none
 
 def ddFilter (metas : String) : String :=
